@@ -1,7 +1,7 @@
 _T = 'AITB.Codec.'
 SPEC = {
     'id': 'C17',
-    'lean_modules': ['AITB.Props.C17', 'AITB.Props.C17Dbl', 'AITB.Props.C17DblText', 'AITB.Props.C17Final'],
+    'lean_modules': ['AITB.Props.C17', 'AITB.Props.C17Dbl', 'AITB.Props.C17DblText', 'AITB.Props.C17Final', 'AITB.Props.C17Oblig'],
     'theorems': [_T + t for t in [
         # numbers and combinators
         'scanN_printN', 'rep_roundtrip', 'rep_ok',
